@@ -1,7 +1,7 @@
 """C01 bounded tier: Hypergraph against the abstract hypergraph of its history.
 
 Scope (bounded, not a proof):
-  * exhaustive: every history of length <= 2 (quick) / <= 3 (thorough) over a fixed alphabet of ~31 operations on the node
+  * exhaustive: every history of length <= 2 (quick) / <= 3 (thorough) over a fixed alphabet of ~32 operations on the node
     universe {0,1,2} (single and batched insertions, listing orders (0,1)/(1,0), removals, node removals with and without
     keep_edges, weight and metadata updates, rejected calls, clear, copy), for weighted and unweighted hypergraphs;
   * seeded random histories of length <= 12 (quick: 300) / <= 30 (thorough: 6000) over the universe {0..5} (and the same with string
@@ -31,7 +31,7 @@ ALPHABET = [
     ("remove_node", 0), ("remove_node", 1, True), ("remove_node", 2, True), ("remove_nodes", [0, 1]),
     ("set_weight", (0, 1), 5), ("set_weight", (1, 0), 1),
     ("set_node_metadata", 0, {"a": 1}), ("set_edge_metadata", (1, 0), {"b": 2}),
-    ("set_attr_node", 0, "x", 1), ("set_attr_edge", (0, 1), "y", 2),
+    ("set_attr_node", 0, "x", 1), ("set_attr_node", 1, "z", 3), ("set_attr_edge", (0, 1), "y", 2),
     ("del_attr_node", 0, "x"), ("del_attr_edge", (0, 1), "y"),
     ("clear",), ("copy",),
 ]
